@@ -318,8 +318,10 @@ pub fn random_values() -> BoxedStrategy<Case> {
         2 => "[a-zA-Z0-9_./]".prop_map(|s| s),
         1 => proptest::char::range('\u{a0}', '\u{2fff}').prop_map(|c| c.to_string()),
         1 => proptest::char::range('\u{1}', '\u{1f}').prop_map(|c| c.to_string()),
+        // shapes that are syntax when left unquoted: brace expressions, tilde prefixes, assignments, globs
+        1 => proptest::sample::select(vec!["{,}", "{a,b}", "{1..3}", "~/", ":~", "=~", "a=b", "[k]=v", "$(x)", "${y}", "*(z)", "!!", "#c"]).prop_map(|s| s.to_string()),
     ];
-    proptest::collection::vec(ch, 3..=40).prop_map(|v| Case { v: v.concat(), forms: None }).boxed()
+    proptest::collection::vec(ch, 1..=30).prop_map(|v| Case { v: v.concat(), forms: None }).boxed()
 }
 
 pub fn run(run: &mut PropRun, ctx: &Ctx) {
